@@ -4,7 +4,7 @@ from vlib import Check, tlc_mc, run_harness, tlc_validate, workdir, build_harnes
 
 CLASSES = {
     "C19": {"loop_hop_limit_exceeded", "loop_loop_iff_repeat", "loop_repeat_not_reported", "loop_chain_not_following_rules", "loop_stops_without_reason",
-            "project_differs_from_standalone", "depends_on_rule_order", "response_differs_from_pipeline", "project_changed_existing_router", "unit_attribution_wrong", "applied_rules_differ_from_pipeline", "panic", "trace_rejected"},
+            "project_differs_from_standalone", "depends_on_rule_order", "response_differs_from_pipeline", "project_changed_existing_router", "unit_attribution_wrong", "applied_rules_differ_from_pipeline", "loop_backend_triggered_chain_differs", "test_examples_disagree_with_chain", "panic", "trace_rejected"},
     "C17": {"trace_action_last_differs", "panic", "trace_rejected"},
 }
 REPLAY = {"C19": {"driver": "analysis", "trace_module": "Trace_Analysis", "trace_cfg": "Trace_Analysis.cfg", "boundary": ("loop", "reset")}}
